@@ -125,6 +125,9 @@ class Walker:
         self.excl = ()
         self.depth = 0
         env = {}
+        for p in fi.params():
+            if p not in ('self', self.proc_name):
+                env[p] = ('name', p)
         self.block(fi.node.body, env)
         self.tr.env = env
         return self.tr
